@@ -732,6 +732,108 @@ def normalize_kwargs():
             + pdef('gen_params_bilinear', ' (vbasis : basis R V)', pb) + '\n' + pdef('gen_params_linear', '', pl) + '\n'
             + pdef('gen_params_functional', '', pf) + '\nEnd GenParams.')
 
+# ------------------------------------------------------------------------------------------ form-copying wrappers, asm dispatch
+ASMF = 'skfem/assembly/__init__.py'
+
+
+def _ctor_call(call, what):
+    """type(self)(<form expr>?, form=..., dtype=..., nthreads=..., **self.params) -> dict of the four attributes (source strings);
+    attributes that are not passed get the defaults of Form.__init__"""
+    if not (isinstance(call, ast.Call) and t2.src(call.func) == 'type(self)'):
+        raise TranslateError(f'{what}: expected type(self)(...): ' + t2.src(call)[:120])
+    got = {'dtype': None, 'nthreads': None, 'params': None, 'form': None}
+    if len(call.args) > 1:
+        raise TranslateError(f'{what}: positional arguments')
+    if call.args:
+        got['form'] = call.args[0]
+    for k in call.keywords:
+        if k.arg is None:
+            if t2.src(k.value) != 'self.params':
+                raise TranslateError(f'{what}: ** argument ' + t2.src(k.value))
+            got['params'] = 'self'
+        elif k.arg in ('dtype', 'nthreads'):
+            if t2.src(k.value) != f'self.{k.arg}':
+                raise TranslateError(f'{what}: {k.arg}=' + t2.src(k.value))
+            got[k.arg] = 'self'
+        elif k.arg == 'form':
+            got['form'] = k.value
+        else:
+            raise TranslateError(f'{what}: keyword {k.arg}')
+    return got
+
+
+def _rec(formterm, got):
+    return (f'mkFr {formterm} {"(fr_dtype r)" if got["dtype"] else "d0"} {"(fr_nthreads r)" if got["nthreads"] else "0"} '
+            f'{"(fr_params r)" if got["params"] else "p0"}')
+
+
+def form_wrappers():
+    tree = t2.parse(FRM)
+    # __init__
+    ini = t2.find_def(tree, '__init__', 'Form')
+    if [a.arg for a in ini.args.args] != ['self', 'form', 'dtype', 'nthreads'] or ini.args.kwarg is None or ini.args.kwarg.arg != 'params' \
+            or [' '.join(t2.src(d).split()) for d in ini.args.defaults] != ['None', 'np.float64', '0']:
+        raise TranslateError('Form.__init__ signature / defaults')
+    body = {t2.src(x.targets[0]): ' '.join(t2.src(x.value).split()) for x in _nodoc(ini.body) if isinstance(x, ast.Assign)}
+    want = {'self.form': 'form.form if isinstance(form, Form) else form', 'self.dtype': 'dtype', 'self.nthreads': 'nthreads', 'self.params': 'params'}
+    for k, v in want.items():
+        if body.get(k) != v:
+            raise TranslateError(f'Form.__init__: {k} = {body.get(k)}')
+    out = ['Definition gen_form_init (f : F) (dtype : D) (nthreads : nat) (params : P) : formrec F D P := mkFr (Some f) dtype nthreads params.',
+           'Definition gen_form_init_from (fo : formrec F D P) (dtype : D) (nthreads : nat) (params : P) : formrec F D P :=\n'
+           '  mkFr (fr_form fo) dtype nthreads params.']
+    # partial / block: either deepcopy(self) with the integrand replaced, or a constructor call
+    for name in ('partial', 'block'):
+        fn = t2.find_def(tree, name, 'Form')
+        st = _nodoc(fn.body)
+        srcs = [' '.join(t2.src(x).split()) for x in st]
+        if srcs[0] == 'form = deepcopy(self)':
+            if 'name = form.form.__name__' not in srcs or 'form.form.__name__ = name' not in srcs or srcs[-1] != 'return form':
+                raise TranslateError(f'Form.{name}: ' + repr(srcs)[:300])
+            asg = [x for x in st if isinstance(x, ast.Assign) and t2.src(x.targets[0]) == 'form.form']
+            t2.only(asg, f'Form.{name}: assignment of form.form')
+            others = [x for x in st if isinstance(x, ast.Assign) and t2.src(x.targets[0]).startswith('form.') and t2.src(x.targets[0]) not in ('form.form', 'form.form.__name__')]
+            if others:
+                raise TranslateError(f'Form.{name}: other attributes of the copy are re-assigned: ' + t2.src(others[0]))
+            rec = 'fr_set_form (fr_copy r) (omap bind (fr_form r))'
+        else:
+            asg = t2.only([x for x in st if isinstance(x, ast.Assign) and t2.src(x.targets[0]) == 'form'], f'Form.{name}: form = ...')
+            got = _ctor_call(asg.value, f'Form.{name}')
+            if got['form'] is None or srcs[-1] != 'return form':
+                raise TranslateError(f'Form.{name}: constructor call without integrand')
+            rec = _rec('(omap bind (fr_form r))', got)
+        if name == 'partial':
+            a = t2.only([x for x in ast.walk(fn) if isinstance(x, ast.Call) and t2.src(x.func) == 'partial'], 'Form.partial: partial(...)')
+            if ' '.join(t2.src(a).split()) not in ('partial(form.form, *args, **kwargs)', 'partial(self.form, *args, **kwargs)'):
+                raise TranslateError('Form.partial: bound integrand: ' + t2.src(a))
+        out.append(f'(* {name}: `bind` stands for binding the given arguments (functools.partial) / padding the other slots (block) *)\n'
+                   f'Definition gen_form_{"copy_block" if name == "block" else name} (bind : F -> F) (r : formrec F D P) : formrec F D P := {rec}.')
+    # decorator
+    cl = t2.find_def(tree, '__call__', 'Form')
+    first = _nodoc(cl.body)[0]
+    if not (isinstance(first, ast.If) and t2.src(first.test) == 'self.form is None' and len(first.body) == 1 and isinstance(first.body[0], ast.Return)):
+        raise TranslateError('Form.__call__: decorator branch')
+    got = _ctor_call(first.body[0].value, 'Form.__call__')
+    if got['form'] is None or t2.src(got['form']) != 'args[0]':
+        raise TranslateError('Form.__call__: decorated function')
+    out.append('Definition gen_form_decorate (r : formrec F D P) (f : F) : formrec F D P := ' + _rec('(Some f)', got) + '.')
+    # asm: wrapper class by argument count
+    fa = t2.find_def(t2.parse(ASMF), 'asm')
+    sub = [x for x in ast.walk(fa) if isinstance(x, ast.Assign) and t2.src(x.targets[0]) == 'wrapper']
+    w = t2.only(sub, 'asm: wrapper = [...][nargs - 1]').value
+    if not (isinstance(w, ast.Subscript) and isinstance(w.value, ast.List) and t2.src(w.slice) == 'nargs - 1'
+            and all(isinstance(e, ast.Name) and e.id in ('Functional', 'LinearForm', 'BilinearForm', 'TrilinearForm') for e in w.value.elts)):
+        raise TranslateError('asm: wrapper table: ' + t2.src(w)[:200])
+    if 'nargs = form.__code__.co_argcount' not in [' '.join(t2.src(x).split()) for x in ast.walk(fa) if isinstance(x, ast.Assign)]:
+        raise TranslateError('asm: nargs')
+    lst = '; '.join('W' + e.id for e in w.value.elts)
+    asm_def = f'Definition gen_asm_wrapper (nargs : nat) : formclass := match nargs with 0 => WNone | S k => nth k [{lst}] WNone end.'
+    pre = ' {F D P : Type} (d0 : D) (p0 : P)'
+    out = [o.replace('Definition gen_form_init ', 'Definition gen_form_init' + pre + ' ').replace('Definition gen_form_init_from ', 'Definition gen_form_init_from' + pre + ' ')
+            .replace('Definition gen_form_partial ', 'Definition gen_form_partial' + pre + ' ').replace('Definition gen_form_copy_block ', 'Definition gen_form_copy_block' + pre + ' ')
+            .replace('Definition gen_form_decorate ', 'Definition gen_form_decorate' + pre + ' ') for o in out]
+    return 'Require Import Model.C01_FormWrap.\n' + '\n'.join(out) + '\n' + asm_def
+
 
 HEADER = '''(* GENERATED by vlib/c01_translate.py from bilinear_form.py, linear_form.py, functional.py, trilinear_form.py, coo_data.py
    of the implementation under test — do not edit *)
@@ -751,4 +853,4 @@ def translate():
     parts = [bilinear(), linear(), functional(), coodata(), trilinear()]
     body = '\n\n'.join(parts)
     body = '\n'.join(('  ' + l if l else l) for l in body.split('\n'))
-    return HEADER + body + '\nEnd Gen.\n\n' + normalize_kwargs() + '\n\nRequire Import ZArith.\nLocal Open Scope Z_scope.\n' + facet_sides() + '\n'
+    return HEADER + body + '\nEnd Gen.\n\n' + normalize_kwargs() + '\n\n' + form_wrappers() + '\n\nRequire Import ZArith.\nLocal Open Scope Z_scope.\n' + facet_sides() + '\n'
